@@ -1029,8 +1029,63 @@ fn abandoned_join_handle(rep: &mut Report) {
     rep.set("writer_model_abandoned_join_handle", json!(runs));
 }
 
+/// A stream whose first `next` stalls (an output that hangs for a while), then is fast.
+struct StallFirst {
+    seen: Arc<Mutex<Vec<u64>>>,
+    stall: Option<std::time::Duration>,
+}
+impl EntryIoStream for StallFirst {
+    fn next(&mut self, entry: &impl Entry) -> Result<(), IoStreamError> {
+        if let Some(d) = self.stall.take() {
+            std::thread::sleep(d);
+        }
+        if let Some(id) = id_of(entry) {
+            self.seen.lock().unwrap().push(id);
+        }
+        Ok(())
+    }
+    fn flush(&mut self) -> std::io::Result<()> {
+        Ok(())
+    }
+}
+
+/// C01 / C05 / C09: the writer was stalled inside the stream for longer than the shutdown timeout
+/// (3 s against 2 s) while 100 entries queued up (capacity 1000: nothing overflows); then the
+/// join handle is dropped. The final drain has its own budget, counted from when it begins:
+/// every entry reaches the stream, the overflow counter stays 0. Fixed scenario, real queue.
+fn stalled_pass_then_shutdown(rep: &mut Report, prop: &str) {
+    use metrique_writer::EntrySink;
+    let seen = Arc::new(Mutex::new(Vec::new()));
+    let counts = Counts::default();
+    let (queue, handle) = BackgroundQueueBuilder::new()
+        .capacity(1000)
+        .flush_interval(std::time::Duration::from_millis(20))
+        .shutdown_timeout(std::time::Duration::from_secs(2))
+        .metrics_recorder_local::<dyn metrics_024::Recorder, _>(counts.clone())
+        .build::<Tag>(StallFirst { seen: seen.clone(), stall: Some(std::time::Duration::from_secs(3)) });
+    for id in 0..100u64 {
+        queue.append(Tag(id));
+    }
+    drop(handle); // returns once the writer has drained, flushed and closed
+    let got = seen.lock().unwrap().clone();
+    let overflows = counts.0.lock().unwrap().get("metrique_queue_overflows").copied().unwrap_or(0);
+    rep.set("writer_model_stalled_pass_then_shutdown", json!({"appended": 100, "reached_the_stream": got.len(), "overflow_counter": overflows}));
+    let expect: Vec<u64> = (0..100).collect();
+    if got != expect || (prop == "C09" && overflows != 0) {
+        rep.violation(
+            "writer:entries-lost-after-a-stalled-pass",
+            format!("capacity 1000, flush interval 20 ms, shutdown timeout 2 s: the stream stalled for 3 s on the first of 100 queued entries, then the join handle was dropped; {} entries reached the stream (expected all 100), overflow counter {overflows}", got.len()),
+            json!({"appended": 100, "reached_the_stream": got.len(), "overflow_counter": overflows, "first_missing": expect.iter().find(|i| !got.contains(i))}),
+        );
+    }
+    drop(queue);
+}
+
 pub fn run(prop: &'static str) {
     let mut rep = Report::from_args(prop, "model_checking");
+    if (prop == "C01" || prop == "C05" || prop == "C09") && rep.replay.is_none() {
+        stalled_pass_then_shutdown(&mut rep, prop);
+    }
     if prop == "C09" && rep.replay.is_none() {
         overflow_counter_through_the_global_route(&mut rep);
     }
